@@ -13,7 +13,10 @@ Status: everything is full strength except the `| safe` breadcrumb link of a fil
 (templates/macros.html 16 + html.rs 436-448): with `--abs-link-prefix` the parent directory name
 reaches the `href` unescaped, so the full statement is refuted from a closed witness
 (`C18_breadcrumb_href_false`) and proved under "no prefix" (`…_partial`). Finding
-C18-abs-prefix-href.
+C18-abs-prefix-href. A second, escaping-independent defect: the row links of the index pages are
+the bare name followed by `/index.html` / `.html`, so a name that starts like a URL scheme
+(`javascript:…`) yields an absolute link (`C18_row_href_relative_false`, `…_partial` for names
+without `:`). Finding C18-href-scheme-from-name.
 What the theorems do not cover (checked at run time by harness/c18 on whole reports): that the
 writers of cobertura.rs / output.rs / html.rs route every name through these routines and that
 the fixed text around the names is what the templates say.
@@ -146,6 +149,31 @@ theorem C18_breadcrumb_item_partial (parent rest : Bytes) :
   · simp [breadcrumbItem]
   · exact scanHtmlAttr_parentLink_none parent _
   · exact scanHtmlText_html parent _
+
+/-! ### links built from names -/
+
+/-- Full-strength statement for the row links of the index pages (`item~"/index.html"`,
+`item~".html"`, no prefix option): whatever the directory or file is called, the link is a relative
+reference (it has no URL scheme), so following it stays inside the report. -/
+def C18_row_href_relative_stmt : Prop :=
+  ∀ item : Bytes, hasScheme (dirRowUrl item) = false ∧ hasScheme (fileRowUrl item) = false
+
+/-- It is false of the code: a directory called `javascript:alert(1)` gives the link
+`javascript:alert(1)/index.html` (escaping is irrelevant: `:` is not a metacharacter). -/
+theorem C18_row_href_relative_false : ¬ C18_row_href_relative_stmt := by
+  intro h
+  have := (h [106, 97, 118, 97, 115, 99, 114, 105, 112, 116, 58, 97, 108, 101, 114, 116, 40, 49, 41]).1
+  revert this
+  decide
+
+/-- Names without `:` (the guard the witness violates) always give relative links. -/
+theorem C18_row_href_relative_partial (item : Bytes) (h : 58 ∉ item) :
+    hasScheme (dirRowUrl item) = false ∧ hasScheme (fileRowUrl item) = false := by
+  constructor
+  · apply hasScheme_false_of_no_colon
+    simp [dirRowUrl, indexHtml, h]
+  · apply hasScheme_false_of_no_colon
+    simp [fileRowUrl, h]
 
 /-! ### non-vacuity: concrete hostile inputs through the executable model -/
 
